@@ -1,8 +1,8 @@
-\* (i) Bidirectional - exhaustive: safety + liveness (weak fairness on the copiers and main)
+\* (i) Bidirectional - exhaustive (thorough tier bounds): safety + liveness (weak fairness on the copiers and main)
 \* bounds: each endpoint sends at most MaxSend payload units; every order of
 \* send/half-close/close/error on both endpoints; all four CloseWrite-support combinations
 CONSTANTS
-  MaxSend = 1
+  MaxSend = 2
   EofWithData = TRUE
   Emit = FALSE
   Classes = {1}
